@@ -703,7 +703,13 @@ impl MqttClientImpl {
                 self.desired_stop_options = None;
                 self.desired_state = ClientImplState::Connected;
             }
-            OperationOptions::Stop(options) => {
+            OperationOptions::Stop(mut options) => {
+
+                // A DISCONNECT can only go out on an established MQTT connection.  Otherwise the protocol
+                // state fails it right away and nothing would ever end the wait for it to be flushed.
+                if !is_connection_established(self.protocol_state.state()) {
+                    options.disconnect = None;
+                }
 
                 if let Some(disconnect) = &options.disconnect {
                     debug!("Submitting disconnect operation to protocol state");
